@@ -334,48 +334,40 @@ Fixpoint std_accepts_f (fuel : nat) (pattern : str) : bool :=
   end.
 Definition std_accepts (pattern : str) : bool := std_accepts_f (S (length pattern)) pattern.
 
-(* grammar of one pattern element without escapes:
-     term ::= '*' | '?' | '[' ['^'] range+ ']' | c      (c not '[' and not '\')
-     range ::= c | c '-' c                                (c not '\', '-', ']')        *)
-Fixpoint wf_class (fuel : nat) (p : str) (nrange : nat) : option str :=
-  match fuel with
-  | O => None
-  | S f =>
-    match p with
-    | [] => None
-    | c :: r =>
-      if N.eqb c RBRACK then (if Nat.eqb nrange 0 then None else Some r)
-      else if N.eqb c DASH || N.eqb c BSLASH then None
-      else match r with
-           | [] => None
-           | c1 :: r1 =>
-             if N.eqb c1 DASH then
-               match r1 with
-               | hi :: r2 => if N.eqb hi DASH || N.eqb hi RBRACK || N.eqb hi BSLASH then None
-                             else match r2 with [] => None | _ => wf_class f r2 (S nrange) end
-               | [] => None
-               end
-             else wf_class f r (S nrange)
-           end
-    end
+(* A well-formed pattern without escapes, as one pass of a five-state machine over the pattern:
+     pattern ::= { term }
+     term    ::= '*' | '?' | c | '[' ['^'] range {range} ']'          (c is not '[' and not '\')
+     range   ::= lo | lo '-' hi                                        (lo, hi not in '-' ']' '\' '/')
+   i.e. the grammar in the documentation of filepath.Match, with every class closed inside its own
+   '/'-separated element (Glob cuts the pattern at every '/').  The pattern is well-formed iff the
+   machine is back in [PTop] at the end. *)
+Inductive pstate :=
+| PTop                 (* outside a class *)
+| PClass0              (* just after '[' : a '^' may follow *)
+| PClass (some : bool) (* expecting lo, or ']' if there has been a range already *)
+| PAfterLo             (* after lo: '-' makes it a range, anything else is the next item *)
+| PAfterDash.          (* after lo '-' : expecting hi *)
+
+Definition pstep_class (some : bool) (c : N) : option pstate :=
+  if N.eqb c RBRACK then (if some then Some PTop else None)
+  else if N.eqb c DASH || N.eqb c BSLASH || N.eqb c SLASH then None
+  else Some PAfterLo.
+
+Definition pstep (st : pstate) (c : N) : option pstate :=
+  match st with
+  | PTop => if N.eqb c BSLASH then None else if N.eqb c LBRACK then Some PClass0 else Some PTop
+  | PClass0 => if N.eqb c CARET then Some (PClass false) else pstep_class false c
+  | PClass some => pstep_class some c
+  | PAfterLo => if N.eqb c DASH then Some PAfterDash else pstep_class true c
+  | PAfterDash => if N.eqb c DASH || N.eqb c RBRACK || N.eqb c BSLASH || N.eqb c SLASH then None
+                  else Some (PClass true)
   end.
-Fixpoint wf_terms (fuel : nat) (p : str) : bool :=
-  match fuel with
-  | O => false
-  | S f =>
-    match p with
-    | [] => true
-    | c :: r =>
-      if N.eqb c BSLASH then false
-      else if N.eqb c LBRACK then
-        let r1 := match r with c2 :: r' => if N.eqb c2 CARET then r' else r | [] => r end in
-        match wf_class (S (length r1)) r1 0 with
-        | None => false
-        | Some r2 => wf_terms f r2
-        end
-      else wf_terms f r
-    end
+
+Fixpoint prun (st : pstate) (p : str) : option pstate :=
+  match p with
+  | [] => Some st
+  | c :: r => match pstep st c with Some st' => prun st' r | None => None end
   end.
-Definition wf_elem (p : str) : bool := wf_terms (S (length p)) p.
-(* a well-formed pattern without escapes: every '/'-separated element is one *)
-Definition well_formed (pattern : str) : bool := forallb wf_elem (split_slash pattern).
+
+Definition well_formed (pattern : str) : bool :=
+  match prun PTop pattern with Some PTop => true | _ => false end.
